@@ -12,6 +12,8 @@
 (*         of the timer); d = the fields of n's projection that changed     *)
 (*         (always contains idx), out = the messages it emitted             *)
 (*     a = "stop"   node n stopped for good at t                            *)
+(*     a = "start"  start() of node n was called at t > 0 (d: what it set:  *)
+(*                  the shuffled probe order); environment step, adopted    *)
 (*     a = "frame"  node n changed outside any handler call (d)             *)
 (*     a = "end"    end of the observation at t                             *)
 (*   messages are written compactly as <<type, src, dst, ind, ups>> with    *)
@@ -110,10 +112,10 @@ TInit ==
 Step(T) ==
     LET P == T.P
         e == T.steps[pos]
-        isH == e.a \in {"tick", "ping", "ack", "inj", "atmr", "stmr", "frame"}
+        isH == e.a \in {"tick", "ping", "ack", "inj", "atmr", "stmr", "frame", "start"}
         post == IF isH THEN PostOf(ob[e.n], e.d) ELSE <<>>
         em == IF e.a \in {"ping", "ack", "inj"} THEN MsgOf(e.m) ELSE Msg("none", 0, 0, 0, <<>>)
-        eout == IF isH /\ e.a # "frame" THEN MsgsOf(e.out) ELSE <<>>
+        eout == IF isH /\ e.a \notin {"frame", "start"} THEN MsgsOf(e.out) ELSE <<>>
         mo == Model(P, e, post, em, eout)
         ob2 == IF isH THEN [ob EXCEPT ![e.n] = post] ELSE ob
         k == IF e.a \in {"ping", "ack"} THEN FlIndex(em) ELSE 0
